@@ -1,9 +1,11 @@
 import json,sys
 pid=sys.argv[1]
+tag=sys.argv[2] if len(sys.argv)>2 else pid
+extra=sys.argv[3] if len(sys.argv)>3 else ''
 p=[json.loads(l) for l in open('/verif/properties.jsonl') if json.loads(l)['id']==pid][0]
 print(f"""You are helping to evaluate a verification framework by writing a *seeded defect* for the open-source Python/Cython package saullocastro/compmech (semi-analytical Ritz models for composite panels, shells, stiffened panels).
 
-Your scratch copy of the repository is the git worktree at /tmp/mut/{pid} (work ONLY there; never touch /repo or /verif, and do not read /verif). The prebuilt extension modules (*.so) are already copied into it, so `cd /tmp/mut/{pid} && /venv/bin/python -c "import compmech"` imports the worktree's package (always run python from inside the worktree directory so that the worktree's `compmech` is the one imported; check `compmech.__file__`).
+Your scratch copy of the repository is the git worktree at /tmp/mut/{tag} (work ONLY there; never touch /repo or /verif, and do not read /verif). The prebuilt extension modules (*.so) are already copied into it, so `cd /tmp/mut/{tag} && /venv/bin/python -c "import compmech"` imports the worktree's package (always run python from inside the worktree directory so that the worktree's `compmech` is the one imported; check `compmech.__file__`).
 
 PROPERTY {pid} -- {p['title']}
 Statement: {p['statement']}
@@ -12,13 +14,13 @@ Code it is anchored in: {', '.join(p['anchors']['files'])}
 
 TASK: make ONE small, realistic change to the package's source in your worktree (the kind of slip a maintainer could make in a refactoring or a 'performance fix') that BREAKS this property, while
   (a) everything still imports/"compiles", and
-  (b) the existing test suite still passes: `cd /tmp/mut/{pid} && /venv/bin/python -m pytest -q -p no:cacheprovider --timeout=900 --continue-on-collection-errors compmech` must give the same result as on the unchanged tree (34 passed; the collection error for compmech/integrate/tests/test_integratev is pre-existing and expected). The full suite takes ~4-5 minutes; run at least the tests that touch the files you changed, and preferably all of it once at the end.
+  (b) the existing test suite still passes: `cd /tmp/mut/{tag} && /venv/bin/python -m pytest -q -p no:cacheprovider --timeout=900 --continue-on-collection-errors compmech` must give the same result as on the unchanged tree (34 passed; the collection error for compmech/integrate/tests/test_integratev is pre-existing and expected). The full suite takes ~4-5 minutes; run at least the tests that touch the files you changed, and preferably all of it once at the end.
 The change must need something SPECIFIC to manifest -- an unusual input (e.g. unsymmetric laminate, non-default flag, unequal panel sizes, particular ordering, a second stiffener, a particular sequence of solver outcomes, a multi-step sequence of calls, two cooperating sites that each look fine alone) -- not something ordinary use or the existing tests would expose at once. Do not add new files to the package, do not change tests, do not change the public API.
 
 Practical constraints of this sandbox: there is NO Cython and no network. Pure-Python files (*.py) can be changed freely and are the preferred place. `.pyx`/`.pxi`/`lib/src/*.c` files cannot be recompiled with Cython here; if (and only if) you want to change a `.pyx` kernel you must make the same change by hand in the Cython-generated `.c` file (copy it from the same path under /repo, it is git-ignored there) and rebuild that one extension with gcc against /root/.pyenv/versions/3.12.1/include/python3.12 and numpy's include dir so that the demonstration really runs the changed code -- this is allowed but costly (the panel-model extensions are 20 MB each); prefer Python-level changes unless the .pyx route is clearly more interesting and you are confident.
 
-DELIVERABLES (write them into /tmp/mut/{pid}/_seed/):
+DELIVERABLES (write them into /tmp/mut/{tag}/_seed/):
   1. patch.diff  -- `git diff` of your change (source files only, no binaries), applicable with `git apply` on a clean checkout.
   2. demo.py     -- a small self-contained program (run as `cd <tree> && /venv/bin/python _seed/demo.py`, or a path you document) that exercises the public API, exits 0 and prints PASS on the UNCHANGED tree and exits non-zero / prints FAIL with your change applied. It must test the *property* (e.g. compare against an independent calculation or a relation that must hold), not merely detect your edit.
   3. meta.json   -- {{"property": "{pid}", "files_changed": [...], "what_it_breaks": "...", "needs_to_manifest": "...", "tests_run": "command + result summary", "demo_unchanged": "PASS/FAIL observed", "demo_changed": "PASS/FAIL observed"}}
-Verify yourself: demo passes with `git stash`/unchanged sources, fails with the change, and the test suite result is unchanged with the change applied. Leave the worktree with your change APPLIED. Be economical: one well-chosen change is enough. In your final answer give a 5-line summary (what you changed, where, what is needed to trigger it, test-suite result, demo results).""")
+Verify yourself (do NOT use `git stash` -- the stash is shared between worktrees and other people work in sibling worktrees; use `git diff > _seed/patch.diff; git apply -R _seed/patch.diff; ...; git apply _seed/patch.diff` instead): demo passes with unchanged sources, fails with the change, and the test suite result is unchanged with the change applied. Leave the worktree with your change APPLIED. Be economical: one well-chosen change is enough. In your final answer give a 5-line summary (what you changed, where, what is needed to trigger it, test-suite result, demo results).""" + (("\n\nADDITIONAL REQUIREMENT FOR THIS RUN: " + extra) if extra else ""))
